@@ -65,6 +65,22 @@ Theorem C16_reentrant_handler_refuted :
 Proof. exact reentrant_handler_refuted. Qed.
 Print Assumptions C16_reentrant_handler_refuted.
 
+(* the connection slot of the mapping handler (Model section Q, repository: releaseSlot goes through a sync.Once): ANY number
+   of release attempts — the tunnel's OnClosed, the deferred failure path after a close that landed between RegisterTunnel
+   and Start, ... — ANY schedule: the counter is 1 or 0, never negative, and 0 exactly when a release has happened. *)
+Theorem C16_slot_released_once :
+  forall (k : nat) (sched : list nat),
+  let s := run _ _ (qrelease true) (qsinit, repeat false k) sched in
+  (qs_active (fst s) = 1%Z \/ qs_active (fst s) = 0%Z) /\ (qs_once (fst s) = true <-> qs_active (fst s) = 0%Z).
+Proof. intros k sched. exact (slot_released_once k sched). Qed.
+Print Assumptions C16_slot_released_once.
+
+(* the plain decrement: OnClosed and the deferred failure path both release the slot: -1 *)
+Theorem C16_slot_plain_decrement_refuted :
+  exists sched, qs_active (fst (run _ _ (qrelease false) (qsinit, [false; false]) sched)) = (-1)%Z.
+Proof. exact slot_plain_decrement_refuted. Qed.
+Print Assumptions C16_slot_plain_decrement_refuted.
+
 (* (2) callback_once — client Tunnel.Close (repaired: CAS loop), from Connecting or Connected, any closers with any
    reasons, any concurrent Start calls.  The actions performed (Dispose.Close, both connection closes, peer notification,
    unregister, onClosed) are an initial segment of ONE run of the close body; Closed means one whole body has run; when
@@ -207,6 +223,23 @@ Theorem C16_unguarded_final_report_refuted :
     snd s = [LWait; LReport; LTimerFired] /\ (forall sched, run _ _ (lstep false) s sched = s).
 Proof. exact unguarded_final_report_refuted. Qed.
 Print Assumptions C16_unguarded_final_report_refuted.
+
+(* what the traffic report is computed from: CopyWithControl's batched counter (Model section P, repository: one explicit flush
+   in the context branch, one after the loop, no deferred flush).  EVERY sequence of delivered chunks, EVERY threshold, BOTH
+   exit paths: the shared counter equals the bytes delivered (so, with (3), reported == delivered). *)
+Theorem C16_copy_counter_exact :
+  forall (threshold : N) (chunks : list N) (via_ctx : bool),
+  let s := cp_run true true false threshold chunks via_ctx in
+  cp_counter s = fold_right N.add 0%N chunks /\ cp_total s = fold_right N.add 0%N chunks.
+Proof. intros threshold chunks via_ctx. exact (copy_counter_exact threshold chunks via_ctx). Qed.
+Print Assumptions C16_copy_counter_exact.
+
+(* a deferred flush added while the explicit add of the context branch is kept: leaving through the context check counts the
+   unflushed tail twice *)
+Theorem C16_copy_counter_double_flush_refuted :
+  cp_counter (cp_run true false true 1048576 [7; 7; 7]%N true) = 42%N /\ cp_total (cp_run true false true 1048576 [7; 7; 7]%N true) = 21%N.
+Proof. exact copy_counter_double_flush_refuted. Qed.
+Print Assumptions C16_copy_counter_double_flush_refuted.
 
 (* the pinned reportTrafficStats: cleanup handler and final report compute the same delta: 100 bytes reported as 200 *)
 Theorem C16_pinned_traffic_double_report_refuted :
